@@ -128,7 +128,30 @@ func naturalDeclared(kind, variant string) string {
 	return "access"
 }
 
+// scenarioBase is the case index of the first scripted scenario (far above any generated case).
+const scenarioBase = 1_000_000
+
+// scenarios are a few scripted, seed-independent cases run before the generated ones: the plainest conforming
+// exchanges and the sharpest form of every defect class reading suggested, so that their witnesses are the ones kept.
+var scenarios = []spec{
+	{Stratum: "scenario:opaque-access-subject", SubjKind: "opaque", SubjDeclared: "access", ActorKind: "none", Requested: "absent", Policy: vstore.TEAllow, Client: "web", Cred: "right", Scope: "openid profile api"},
+	{Stratum: "scenario:requested-type-jwt", SubjKind: "jwt", SubjDeclared: "access", ActorKind: "none", Requested: "jwt", Policy: vstore.TEAllow, Client: "web", Cred: "right", Scope: "openid"},
+	{Stratum: "scenario:revoked-jwt-access-token-declared-id_token", SubjKind: "revoked", SubjVariant: "jwt-revoked", SubjDeclared: "id", ActorKind: "none", Requested: "access", Policy: vstore.TEAllow, Client: "web", Cred: "right", Scope: "openid"},
+	{Stratum: "scenario:delegation-opaque-actor", SubjKind: "id", SubjDeclared: "id", ActorKind: "opaque", ActorDeclared: "natural", Requested: "id", Policy: vstore.TEImpersonate, Client: "web2", Cred: "right", Scope: "openid email"},
+	{Stratum: "scenario:refresh-for-refresh", SubjKind: "refresh", SubjDeclared: "refresh", ActorKind: "jwt", ActorDeclared: "natural", Requested: "refresh", Policy: vstore.TEAllow, Client: "web", Cred: "right", Scope: "openid offline_access", Follow: "returned-as-subject"},
+	{Stratum: "scenario:partner-jwt-subject", SubjKind: "foreign", SubjVariant: "partner-jwt", SubjDeclared: "jwt", ActorKind: "none", Requested: "access", Policy: vstore.TEAllow, Client: "svc", Cred: "right", Scope: "api", Verifier: true},
+	{Stratum: "scenario:null-payload-subject", SubjKind: "garbage", SubjVariant: "null-payload-signed", SubjDeclared: "access", ActorKind: "none", Requested: "access", Policy: vstore.TEAllow, Client: "web", Cred: "right", Scope: "openid"},
+	{Stratum: "scenario:storage-veto", SubjKind: "jwt", SubjDeclared: "access", ActorKind: "none", Requested: "access", Policy: vstore.TEVeto, Client: "web", Cred: "right", Scope: "openid"},
+	{Stratum: "scenario:wrong-secret", SubjKind: "jwt", SubjDeclared: "access", ActorKind: "none", Requested: "access", Policy: vstore.TEAllow, Client: "web", Cred: "wrong-secret", Scope: "openid"},
+	{Stratum: "scenario:kill-subject-then-repeat", SubjKind: "jwt", SubjDeclared: "access", ActorKind: "none", Requested: "access", Policy: vstore.TEAllow, Client: "web2", Cred: "right", Scope: "openid", Follow: "kill-subject-repeat"},
+}
+
 func drawSpec(r *rand.Rand, i int, matrixCases int) spec {
+	if i >= scenarioBase {
+		s := scenarios[i-scenarioBase]
+		s.SigAlg = jose.RS256
+		return s
+	}
 	var s spec
 	s.SigAlg = pick(r, sigAlgs...)
 	s.Verifier = r.IntN(3) == 0
@@ -464,7 +487,11 @@ func (cr *caseRun) do(e *exch) *opdrv.Tokens {
 			if reason == "mistyped" {
 				key += ":" + t.Form + "-as-" + shortType(declared)
 			}
-			must = append(must, why{role + " token " + reason + " (" + t.Kind + "/" + t.Variant + " declared " + shortType(declared) + ")", key})
+			text := role + " token " + reason + " (" + t.Kind + "/" + t.Variant + " declared " + shortType(declared) + ")"
+			if reason == "mistyped" && !t.live() {
+				text += ", and it is not even live any more"
+			}
+			must = append(must, why{text, key})
 		}
 		add("subject", e.Subj, e.SubjDeclared)
 		if e.Actor != nil {
@@ -806,7 +833,7 @@ func runCase(run *ev.Run, idx, router, matrixCases int) {
 		return
 	}
 	w.Store.TENoRefreshVet = sp.NoRefreshVet
-	c := &caseCtx{w: w, router: router, r: r}
+	c := &caseCtx{w: w, router: router, r: r, prep: []prepOp{}}
 	cr := &caseRun{run: run, idx: idx, c: c, sp: sp}
 
 	subj := c.makeToken(sp.SubjKind, sp.SubjVariant, true)
@@ -959,11 +986,18 @@ func main() {
 
 	matrixCases := run.N(matrixSize, 18*matrixSize)
 	n := run.N(matrixSize+1440, 18*matrixSize+36120) // 3 600 / 75 000 cases, each on both routers
-	run.Extra("cases", map[string]int{"matrix": matrixCases, "near_valid": n - matrixCases, "routers": 2})
+	run.Extra("cases", map[string]int{"scripted_scenarios": len(scenarios), "matrix": matrixCases, "near_valid": n - matrixCases, "routers": 2})
 	if rc := run.ReplayCase(); rc >= 0 {
 		runCase(run, int(rc), 0, matrixCases)
 		runCase(run, int(rc), 1, matrixCases)
 		run.Finish()
+	}
+	for k := range scenarios {
+		for router := 0; router < 2; router++ {
+			if pi := catch(func() { runCase(run, scenarioBase+k, router, matrixCases) }); pi != nil {
+				run.HarnessBug(fmt.Sprintf("scenario %d router %d: panic outside a monitored call: %s at %s", k, router, pi.Value, pi.Frame))
+			}
+		}
 	}
 	ev.Parallel(n, 0, func(_ int, i int) {
 		for router := 0; router < 2; router++ {
